@@ -43,7 +43,7 @@ def expected_tree(depth, width, algo, ns, script):
     tree = {}
     lists = {}
     for op in script:
-        if op[0] == "obj":
+        if op[0] in ("obj", "objck"):
             _, pid, content = op
             cid = hashlib.new(D1ALGO[algo], content).hexdigest()
             tree["objects/" + "/".join(r_shard(cid, depth, width))] = content
@@ -64,7 +64,10 @@ def script_for():
             ("meta", PIDS[1], "c", b"<abc/>"), ("meta", PIDS[3], FORMATS[2], b"<other/>"),
             ("meta", PIDS[4], None, b""), ("meta", PIDS[0], "c\n", b"<c-newline/>"), ("meta", PIDS[1], " c", b"<space-c/>"),
             # an identifier that happens to be the path of an existing file (here: the first source file)
-            ("obj", "<PATH-OF-SOURCE-0>", b"path-shaped pid"), ("meta", "<PATH-OF-SOURCE-0>", "c", b"<p/>")]
+            ("obj", "<PATH-OF-SOURCE-0>", b"path-shaped pid"), ("meta", "<PATH-OF-SOURCE-0>", "c", b"<p/>"),
+            # stored with its (correct) checksum under the store's own algorithm, spelled in upper case: the layout
+            # uses the digest as the store computes it
+            ("objck", "checked.1", b"validated content \r\n\x00")]
 
 
 DV, WV, AV, NSV = z3.Int("depth"), z3.Int("width"), z3.Int("algo"), z3.Int("namespace")
@@ -113,8 +116,12 @@ def run_config(ps, M, shim, native_root=None, enc=None, diag=True):
                     bad=[("store-creation-failed", "%s: %s" % (type(e).__name__, str(e)[:160].replace("\n", " ")))])
     for n, op in enumerate(script):
         try:
-            if op[0] == "obj":
-                om = s.store_object(op[1], put("o%d" % n, op[2]))
+            if op[0] in ("obj", "objck"):
+                if op[0] == "objck":
+                    om = s.store_object(op[1], put("o%d" % n, op[2]), None,
+                                        hashlib.new(D1ALGO[algo], op[2]).hexdigest().upper(), algo)
+                else:
+                    om = s.store_object(op[1], put("o%d" % n, op[2]))
                 if om.cid != hashlib.new(D1ALGO[algo], op[2]).hexdigest():
                     bad.append(("cid-not-digest-under-store-algorithm", om.cid))
             else:
